@@ -1,4 +1,5 @@
 // C12 conformance harness (cases from spec/math/IntegrationGen.tla)
+#include <limits>
 #include "vp_io.hxx"
 #include "TFEL/Config/TFELConfig.hxx"
 #include "TFEL/Math/tvector.hxx"
@@ -53,6 +54,22 @@ int main(int argc, char** argv) {
         r.set("hasad", Json(1));
       } else {
         r.set("hasad", Json(0)).set("qad", Json(0)).set("tightad", Json(false));
+      }
+    } else if (kind == "halfinf") {
+      const double a = double(c["a"].asInt());
+      const int m = static_cast<int>(c["m"].asInt());
+      const bool up = c["side"].asStr() == "up";
+      const double inf = std::numeric_limits<double>::infinity();
+      auto f = [&](const double x) { return up ? std::pow(x + 3, -m) : std::pow(3 - x, -m); };
+      double lo = up ? a : -inf, hi = up ? inf : a;
+      if (c["swapped"].asInt() == 1) std::swap(lo, hi);
+      GaussKronrodQuadrature gk;
+      const auto ra = gk(f, lo, hi, GaussKronrodQuadrature::NumericalParameters<double>{1e-11, 30});
+      if (ra.has_value()) {
+        const auto e = vp::exact(*ra, den, 1e-8);
+        r.set("q", Json(e.q)).set("tight", Json(e.tight)).set("has", Json(1));
+      } else {
+        r.set("has", Json(0)).set("q", Json(0)).set("tight", Json(false));
       }
     } else {
       const double ti = double(c["ti"].asInt()), tf = double(c["tf"].asInt());
